@@ -27,8 +27,8 @@ import (
 	"math/big"
 	"reflect"
 	"strconv"
+	"strings"
 	"sync"
-	"unicode/utf8"
 
 	"go.starlark.net/starlark"
 	"go.starlark.net/starlarkstruct"
@@ -45,54 +45,45 @@ type c17Case struct {
 	Fields bool              `json:"fields"`
 }
 
-// text is recorded as {"s": text} when it is valid UTF-8 (JSON cannot carry anything else
-// faithfully) and as {"b": [bytes]} otherwise; the two forms never compare equal.
-func c17txt(s string) obj {
-	if utf8.ValidString(s) {
-		return obj{"s": s}
-	}
-	return obj{"b": byteArr(s)}
-}
-
 // a position is recorded as one ASCII string: quoted file name, line, column
-type c17Pos = string
-
-func c17pos(p syntax.Position) c17Pos {
+func c17pos(p syntax.Position) string {
 	return fmt.Sprintf("%s:%d:%d", strconv.QuoteToASCII(p.Filename()), p.Line, p.Col)
 }
 
-type c17Param struct {
-	Name obj    `json:"name"`
-	Pos  c17Pos `json:"pos"`
-	Dflt obj    `json:"dflt"` // {"some":false} or {"some":true,"v":value}
-}
+func c17q(s string) string { return strconv.QuoteToASCII(s) }
 
+// metadata of one function; text components are canonical ASCII renderings
 type c17Fn struct {
-	Name     obj        `json:"name"`
-	Doc      obj        `json:"doc"`
-	Pos      c17Pos     `json:"pos"`
-	NParams  int        `json:"nparams"`
-	NKwonly  int        `json:"nkwonly"`
-	Varargs  bool       `json:"varargs"`
-	Kwargs   bool       `json:"kwargs"`
-	Params   []c17Param `json:"params"`
-	FreeVars []obj      `json:"freevars"`
-	PosTab   []int      `json:"postab"` // pc, line, col, pc, line, col, ... wherever the position changes
+	Name    string `json:"name"`
+	Doc     string `json:"doc"`
+	Pos     string `json:"pos"`
+	NParams int    `json:"nparams"`
+	NKwonly int    `json:"nkwonly"`
+	Varargs bool   `json:"varargs"`
+	Kwargs  bool   `json:"kwargs"`
+	NListed int    `json:"nlisted"`  // number of parameters listed in Params
+	Params  string `json:"params"`   // one line per parameter: name @position = default (canonical value) | required
+	Free    string `json:"freevars"` // names of the free variables
+	PosTab  string `json:"postab"`   // pc:line:col wherever the position changes
 }
 
+// what a client observes of one execution (P.Init or Q.Init) and of the program's metadata;
+// values are rendered canonically with type tags (see c03Canon: ints i.., floats by bit pattern,
+// strings and bytes quoted, containers with object identities, functions with name, position,
+// defaults and free variables)
 type c17Side struct {
-	OK       bool       `json:"ok"`
-	Err      obj        `json:"err"`
-	Panic    bool       `json:"panic"`
-	Stack    [][]any    `json:"stack"` // [name bytes, line, col]
-	Steps    int        `json:"steps"`
-	Printed  []obj      `json:"printed"`
-	Effects  []effect   `json:"effects"`
-	Globals  [][]any    `json:"globals"` // [name bytes, value]
-	Filename obj        `json:"filename"`
-	Loads    [][]any    `json:"loads"` // [name bytes, line, col]
-	Fns      []c17Fn    `json:"fns"`
-	Fields   obj        `json:"fields,omitempty"`
+	OK       bool    `json:"ok"`
+	Panic    bool    `json:"panic"`
+	Steps    int     `json:"steps"`
+	Err      string  `json:"err"`
+	Stack    string  `json:"stack"`
+	Printed  string  `json:"printed"`
+	Effects  string  `json:"effects"`
+	Globals  string  `json:"globals"`
+	Filename string  `json:"filename"`
+	Loads    string  `json:"loads"`
+	Fns      []c17Fn `json:"fns"`
+	Fields   obj     `json:"fields,omitempty"`
 }
 
 type c17Rec struct {
@@ -276,34 +267,47 @@ func (w *c17walker) walk(v starlark.Value, depth int) {
 }
 
 func c17fn(fn *starlark.Function) c17Fn {
-	m := c17Fn{Name: c17txt(fn.Name()), Doc: c17txt(fn.Doc()), Pos: c17pos(fn.Position()), NParams: fn.NumParams(),
-		NKwonly: fn.NumKwonlyParams(), Varargs: fn.HasVarargs(), Kwargs: fn.HasKwargs(), Params: []c17Param{}, FreeVars: []obj{}, PosTab: []int{}}
+	m := c17Fn{Name: c17q(fn.Name()), Doc: c17q(fn.Doc()), Pos: c17pos(fn.Position()), NParams: fn.NumParams(),
+		NKwonly: fn.NumKwonlyParams(), Varargs: fn.HasVarargs(), Kwargs: fn.HasKwargs()}
+	var sb strings.Builder
 	for i := 0; i < fn.NumParams(); i++ {
 		n, p := fn.Param(i)
-		d := obj{"some": false}
+		fmt.Fprintf(&sb, "%s @%s", c17q(n), c17pos(p))
 		if v := fn.ParamDefault(i); v != nil {
-			d = obj{"some": true, "v": (&encoder{ids: true}).enc(v)}
+			c := &c03Canon{}
+			c.val(v)
+			sb.WriteString(" = ")
+			sb.WriteString(c.sb.String())
+		} else {
+			sb.WriteString(" required")
 		}
-		m.Params = append(m.Params, c17Param{c17txt(n), c17pos(p), d})
+		sb.WriteString("\n")
+		m.NListed++
 	}
+	m.Params = sb.String()
+	sb.Reset()
 	for i := 0; i < fn.NumFreeVars(); i++ {
 		b, _ := fn.FreeVar(i)
-		m.FreeVars = append(m.FreeVars, c17txt(b.Name))
+		sb.WriteString(c17q(b.Name))
+		sb.WriteString(" ")
 	}
+	m.Free = sb.String()
+	sb.Reset()
 	fc := starlark.VerifFuncode(fn)
 	var last syntax.Position
 	for pc := 0; pc < len(fc.Code); pc++ {
 		p := fc.Position(uint32(pc))
 		if pc == 0 || p.Line != last.Line || p.Col != last.Col {
-			m.PosTab = append(m.PosTab, pc, int(p.Line), int(p.Col))
+			fmt.Fprintf(&sb, "%d:%d:%d ", pc, p.Line, p.Col)
 			last = p
 		}
 	}
+	m.PosTab = sb.String()
 	return m
 }
 
 func c17side(c *c17Case, prog *starlark.Program) *c17Side {
-	s := &c17Side{Stack: [][]any{}, Printed: []obj{}, Globals: [][]any{}, Loads: [][]any{}, Fns: []c17Fn{}, Err: c17txt("")}
+	s := &c17Side{Fns: []c17Fn{}}
 	h := &hostEnv{}
 	steps := c.Steps
 	if steps == 0 {
@@ -352,34 +356,48 @@ func c17side(c *c17Case, prog *starlark.Program) *c17Side {
 	c17mu.Unlock()
 	s.Steps = int(th.ExecutionSteps())
 	s.OK = err == nil
+	var sb strings.Builder
 	if err != nil {
 		if ee, ok := err.(*starlark.EvalError); ok {
-			s.Err = c17txt(ee.Msg)
+			s.Err = c17q(ee.Msg)
 			for _, fr := range ee.CallStack {
-				s.Stack = append(s.Stack, []any{c17txt(fr.Name), c17pos(fr.Pos)})
+				fmt.Fprintf(&sb, "%s @%s\n", c17q(fr.Name), c17pos(fr.Pos))
 			}
+			s.Stack = sb.String()
+			sb.Reset()
 		} else {
-			s.Err = c17txt(err.Error())
+			s.Err = c17q(err.Error())
 		}
 	}
 	for _, m := range h.printed {
-		s.Printed = append(s.Printed, c17txt(m))
+		sb.WriteString(c17q(m))
+		sb.WriteString("\n")
 	}
-	s.Effects = h.effects
-	if s.Effects == nil {
-		s.Effects = []effect{}
+	s.Printed = sb.String()
+	sb.Reset()
+	for _, ef := range h.effects {
+		b, _ := json.Marshal(ef) // encoded values (enc.go); Go sorts object keys
+		sb.Write(b)
+		sb.WriteString("\n")
 	}
-	enc := &encoder{ids: true}
+	s.Effects = sb.String()
+	sb.Reset()
+	cn := &c03Canon{}
 	w := &c17walker{seen: map[any]bool{}}
 	for _, n := range g.Keys() {
-		s.Globals = append(s.Globals, []any{c17txt(n), enc.enc(g[n])})
+		cn.sb.WriteString(n)
+		cn.sb.WriteString(" = ")
+		cn.val(g[n])
+		cn.sb.WriteString("\n")
 		w.walk(g[n], 0)
 	}
-	s.Filename = c17txt(prog.Filename())
+	s.Globals = cn.sb.String()
+	s.Filename = c17q(prog.Filename())
 	for i := 0; i < prog.NumLoads(); i++ {
 		n, p := prog.Load(i)
-		s.Loads = append(s.Loads, []any{c17txt(n), c17pos(p)})
+		fmt.Fprintf(&sb, "%s @%s\n", c17q(n), c17pos(p))
 	}
+	s.Loads = sb.String()
 	if top != nil {
 		w.fns = append([]*starlark.Function{top}, w.fns...)
 	}
